@@ -1,10 +1,14 @@
 """C17 — detached local spans attach identically wherever they are pushed."""
+import common as C
+import oracles as O
+import proggen
 import seqcheck
+import seqrun
 from props import c06
 
 
 def knobs(r, i):
-    return {"ops": 30 + r.below(100), "multi": True, "cycle_density": i % 3, "threads": 1 + i % 2, "open_at_close": i % 2 == 1, "orphans": i % 3 != 0}
+    return {"ops": 30 + r.below(100), "multi": True, "cycle_density": i % 3, "threads": 1 + i % 2, "open_at_close": i % 2 == 1, "orphans": i % 3 != 0, "prebuilt": i % 4 == 1}
 
 
 D10_PUSHED = """0 spawn
@@ -56,8 +60,68 @@ def extra(r):
             ("orphans/span-less-set", ORPHANS, ["no_panic", "attachments", "tree", "exactly_once"])]
 
 
+# a set collected while spans recorded in it are still open: the open spans are closed at the collection time,
+# whatever was recorded after they were entered (a finished child, an event, nothing)
+def open_at_collect(tail):
+    return ["0 spawn", "0 setReporter 0", "0 collectorStart", "0 localEnter 6f31", "0 localEnter 6f32"] + tail + \
+           ["0 sleep 3000", "0 collectUnder x1", "0 root a 7261 1 0 1", "0 root b 7262 2 0 1", "0 pushChild a x1", "0 pushChild b x1",
+            "0 toRecords x1 5 7", "0 drop a", "0 drop b", "0 cycle", "0 stats"]
+
+
+OPEN_SCEN = {"open-then-finished-child": open_at_collect(["0 localEnter 63", "0 close"]),
+             "open-then-event": open_at_collect(["0 localEnter 63", "0 close", "0 lAddEvent 65 none"]),
+             "open-only": open_at_collect([])}
+
+
+def timed(v, tier, seed):
+    """the last clause of C17 needs real time: programs with sets collected under open local spans (and scopes closed under
+    them), run with every call bracketed by clock readings; durations of the delivered copies against the calls' windows"""
+    n = 150 if tier == "quick" else 8000
+    r = C.Rng(seed * 1000003 + 1717)
+    gens = [proggen.make(r.fork(), "tree", {"ops": 25 + r.below(60), "multi": True, "cycle_density": 1 + i % 2, "threads": 1 + i % 2, "open_at_close": True, "sleeps": True,
+                                            "orphans": i % 3 == 0}) for i in range(n)]
+    cases = [g.lines for g in gens] + list(OPEN_SCEN.values())
+    specs = [g.s for g in gens] + [proggen.spec_of(x) for x in OPEN_SCEN.values()]
+    impl = seqrun.run_impl(cases, env={"FH_TIMES": "1"})
+    bad, used = 0, 0
+    for lines, spec, outs in zip(cases, specs, impl):
+        plain, times = seqrun.split_times(outs)
+        if any(l.split()[1] in ("collectUnder", "closeUnder") for l in lines):
+            used += 1
+        try:
+            tr = O.Transcript(lines, plain)
+            f = O.o_no_panic(spec, tr) + O.o_times(spec, tr, times) + O.o_copies(spec, tr)
+        except Exception as ex:
+            f = ["unparsable transcript: %s" % ex]
+        f = [x for x in f if not c06.known(lines, "copies", x)]
+        if f and bad < 2:
+            bad += 1
+            v.violation(f[0], {"program": lines, "stream": "timed", "implementation_transcript": outs, "how_to_replay": "./check C17 --replay <this file> (timed)"})
+    v.coverage["timed_programs"] = len(cases)
+    v.coverage["timed_programs_collecting_under_open_spans"] = used
+
+
 def run(v, tier, seed, replay):
+    if replay:
+        import json
+        rp = json.load(open(replay))
+        if rp.get("stream") == "timed":
+            C.lean_check(["C17"], tier)
+            C.cargo_build("fh-core", ["fh-seq"])
+            lines = rp["program"]
+            outs = seqrun.run_impl([lines], env={"FH_TIMES": "1"})[0]
+            plain, times = seqrun.split_times(outs)
+            spec = proggen.spec_of(lines)
+            tr = O.Transcript(lines, plain)
+            for x in O.o_no_panic(spec, tr) + O.o_times(spec, tr, times) + O.o_copies(spec, tr):
+                v.violation(x, {"program": lines, "stream": "timed", "implementation_transcript": outs})
+                break
+            v.coverage = {"obligations": 1, "discharged": 1, "checker_cmd": "replay", "trusted_base": C.TRUSTED_BASE, "evaluations": 1, "distinct_nontrivial": 1,
+                          "rule": "replay of one timed program", "samples": [{"program": lines[:30]}]}
+            return
     seqcheck.run(v, tier, seed, replay, "C17", ["C17"], tree_oracles=["no_panic", "copies", "tree", "exactly_once", "attachments"], knobs=knobs,
                  n_quick=(700, 100), n_thorough=(80000, 5000), known=c06.known, extra_cases=extra,
                  nontrivial=lambda lines, tr: any(l.split()[1] in ("pushChild", "toRecords") for l in lines),
                  assumptions=["absolute times of to_span_records and of delivered copies use different clock anchors; durations are compared with a 2 µs tolerance"])
+    if not replay and not v.violations:
+        timed(v, tier, seed)
